@@ -60,4 +60,6 @@ let p4 f l = List.iter (p3 f) l
 
 (* ---- command registry: each cmd_*.ml registers its commands at load time ---- *)
 let commands : (string, string -> unit) Hashtbl.t = Hashtbl.create 64
-let register name (f : string -> unit) = Hashtbl.replace commands name f
+let register name (f : string -> unit) =
+  if Hashtbl.mem commands name then failwith ("duplicate driver command " ^ name);
+  Hashtbl.replace commands name f
